@@ -23,7 +23,7 @@ ASSUMPTIONS = ["transport read contract: recvmsg returns 1..=buf.len() bytes of 
                "(an I/O error aborts the handshake with that error, not modelled)",
                "transport write contract: sendmsg accepts 1..=len bytes; all bytes are eventually written in order, never an error",
                "Linux (cfg(unix), not freebsd/dragonfly: the NUL byte is part of the first write)"]
-PARTIAL = ["C16_auth_partial", "C16_replies_partial", "C16_nopanic_partial"]
+PARTIAL = ["C16_conforms_partial", "C16_auth_partial", "C16_auth_sound_partial", "C16_replies_partial", "C16_nopanic_partial"]
 
 BASE = g.S_AUTH + g.S_DATA + g.S_OTHER
 ALL = BASE + g.S_AUTH_MORE + g.S_DATA_MORE + g.S_OTHER_MORE
@@ -58,7 +58,7 @@ def gen(rng, tier):
             continue
         yield g.s_case("A", "-", 0, 0, "A", g.split_at(full, list(cuts)))
     # 3. structured random transcripts: mostly sensible conversations with perturbations
-    count = 12000 if quick else 150000
+    count = 12000 if quick else 80000
     for i in range(count):
         mech, uid = rng.choice(CONF)
         if rng.random() < 0.3:
@@ -144,5 +144,14 @@ def search(rng, bad_cases):
 
 ENABLED = True
 LEVEL = "proof"
-LEVEL_TEXT = "TBD"
-LEVEL_NOTE = "TBD"
+LEVEL_TEXT = ("Theorems in coq/theories/Properties/C16.v about a Gallina mirror of Common::read_commands, Command::from_str and the "
+              "Server state machine reading an arbitrary list of chunks: the outcome is the same for EVERY way the stream is cut "
+              "(induction over the chunk oracle); outside three explicitly defined classes of streams the observable outcome conforms to "
+              "an independent ideal SASL server (completion exactly on the inductive relation `accepts`, exactly the prescribed REJECTED/"
+              "ERROR/DATA/OK/AGREE_UNIX_FD lines, leftover bytes and fds handed on); no panic unless an LF stands where a line should "
+              "start; no bound on the length of the conversation. PARTIAL: the full statement is refuted by the faithful model "
+              "(three witnesses, all confirmed on the real code and listed as known findings).")
+LEVEL_NOTE = ("Trusted: Coq kernel; the hand-written model, tied to the code by running the real Builder::server(..).p2p().build() over a "
+              "scripted socket on ~94k (quick) transcripts/chunkings and comparing written bytes, completion, fd capability and leftover; "
+              "the transport contracts (no I/O errors, reads of 1..=1024 bytes). Where the property text does not prescribe the "
+              "conversation (LF without CR, non-ASCII lines, non-numeric EXTERNAL identities) only 'no panic' is demanded.")
